@@ -18,13 +18,16 @@ def run_inputs(ck, exe, env, items, san_exe=None):
     pick = vlines[:250] + vlines[-5:]
     srcv = wv.run_lines([mdrv, "src"], pick, shards=wv.NCPU, env=env)
     ck.cov["src_evaluations"] = ck.cov.get("src_evaluations", 0) + len(srcv)
+    # whole decryptions on the translated source only (SrcRun5: runcrypt::execute_decrypt with pipeline and threads under MiniCConc)
+    wdiffs = whole_source_runs(ck, [l for l in lines if l.split(" ", 2)[1] == "dec"], impl, limit=240 if ck.tier == "thorough" else 40)
+    wbad = {d[0]: d[3] for d in wdiffs}
     san = wv.run_lines([san_exe], lines, env=dict(env, ASAN_OPTIONS="detect_leaks=0:abort_on_error=1:new_delete_type_mismatch=0", UBSAN_OPTIONS="halt_on_error=1")) if san_exe else {}
     res = []
     for i, (T, key, data, meta) in enumerate(items):
         dh, dkv = split_impl(impl.get("d%d" % i, "(no output)"))
         vh, vkv = split_impl(impl.get("v%d" % i, "(no output)"))
         res.append({"T": T, "key": key, "data": data, "meta": meta, "dec": dh, "dec_kv": dkv, "ver": vh, "ver_kv": vkv,
-                    "mdec": model.get("d%d" % i, "(no output)"), "mver": model.get("v%d" % i, "(no output)"), "tver": srcv.get("v%d" % i),
+                    "mdec": model.get("d%d" % i, "(no output)"), "mver": model.get("v%d" % i, "(no output)"), "tver": srcv.get("v%d" % i), "tdec_differs": wbad.get("d%d" % i),
                     "sdec": split_impl(san.get("d%d" % i, ""))[0] if san_exe else None, "sver": split_impl(san.get("v%d" % i, ""))[0] if san_exe else None})
     return res
 
@@ -37,13 +40,15 @@ def corr_ok(x):
         dec_ok = x["dec"] == x["mdec"]
     if x.get("tver") is not None and x["tver"] != x["ver"]:
         return False        # translated source (MiniC) vs implementation
+    if x.get("tdec_differs") is not None:
+        return False        # translated whole-file decryption vs implementation
     return dec_ok and x["ver"] == x["mver"]
 
 
 def replay_of(ck, x, extra=None):
     r = {"class": None, "T": x["T"], "key": x["key"].hex(), "input_file_hex": x["data"].hex()[:20000], "input_len": len(x["data"]),
          "decrypt": x["dec"][:300], "decrypt_info": x["dec_kv"], "verify": x["ver"], "verify_info": x["ver_kv"],
-         "model_decrypt": x["mdec"][:300], "model_verify": x["mver"], "translated_source_verify": x.get("tver"), "driver_flags": ck.impl_flags,
+         "model_decrypt": x["mdec"][:300], "model_verify": x["mver"], "translated_source_verify": x.get("tver"), "translated_source_whole_decrypt_if_different": x.get("tdec_differs"), "driver_flags": ck.impl_flags,
          "replay": "feed 'x dec T key file' / 'x ver T key file' to harness/drv.cpp built with the flags above against /repo"}
     if extra:
         r.update(extra)
